@@ -157,6 +157,7 @@ def run_property(prop, tier, seed, prop_files, coq_targets, profile, monitor, n_
             res.violation("monitor-%d" % i, payload(i, "monitor false on an implementation history"))
         elif disagree or not harness_ok or not proofs_ok:
             what = ("model and implementation disagree (corr.M4corr.check_history)" if disagree else
+                    gout.split(":", 1)[1].strip()[:300] if (not harness_ok and gout.startswith("CORRESPONDENCE:")) else
                     "harness does not build/run against the tree" if not harness_ok else
                     "proof obligations do not check: " + ", ".join(prop_files))
             pl = payload(disagree[0], what) if disagree else {"property": prop, "what": what, "seed": seed, "tier": tier}
